@@ -47,6 +47,16 @@ def run(prog, tier):
     from ._families import borrow as _borrow
     from . import c16 as _c16
     _borrow(R, P, "GRAPH", prog, _c16.analyse, floor=100)
+    from ._shared import check_iterator_reuse
+    check_iterator_reuse(R, prog, P, ['cnfgen.graphs', 'cnfgen.clitools'], 100)
+    # 'save' stores the very graph the formula is built from: the in-house writers / readers round trip (C14, folded)
+    from . import _graphio_fold as _gio
+    rt = _gio.verdict(prog)
+    anchor = prog.func('cnfgen.graphs', 'writeGraph')
+    if rt[0] is False:
+        R.bad(F('SAVE-ROUND-TRIP', anchor, 'kthlist / dimacs / matrix round trip', rt[1]))
+    elif rt[0] is True:
+        R.ok('SAVE-ROUND-TRIP', rt[1], anchor.key)
     return R
 
 
@@ -603,6 +613,8 @@ class _SeededRng:
         self.r, self.stuck = _r.Random(20240229), stuck
 
     def sample(self, pop, k):
+        if not isinstance(pop, (list, tuple, range, str)):
+            raise TypeError("Population must be a sequence")
         pop = list(pop)
         if k > len(pop) or k < 0:
             raise ValueError
